@@ -29,10 +29,18 @@
                        _req_seq_num == _last_acked_rx_seq.
                        S-frame: _remote_is_busy := (function == RNR); RR/RNR with the
                        poll bit: answer RR(final=1).  REJ/SREJ: nothing (TODO in code).
-   Timers: _start_receiver_ready_poll / _start_monitor arm asyncio timers; the model has
-   NO timer transition (retransmission and monitor timers never fire), so
-   _monitor_handle is always None.  This assumption is part of every theorem about
-   this model.
+   Timers: _send_i_frame arms the retransmission ("receiver ready poll") timer
+   (_start_receiver_ready_poll, which also zeroes the poll counter); _update_ack_seq
+   disarms it when _last_acked_tx_seq == _next_tx_seq.  When it fires
+   (_receiver_ready_poll) an RR with final=1 is sent and the monitor timer is armed;
+   while _monitor_handle is set (a TimerHandle is truthy even after it has fired)
+   _process_output sends nothing; _update_ack_seq clears it when a frame with final != 0
+   carries an acceptable acknowledgement.  When the monitor timer fires (_monitor) another
+   RR(final=1) is sent and the timer re-armed while the poll counter is below
+   peer_max_retransmission (or that is <= 0); otherwise only an error is logged and the
+   dead handle keeps blocking the output.  These four events are the labels
+   TimeoutRetxA/B and TimeoutMonA/B; the theorems of C08 are stated for schedules WITHOUT
+   them (no_timer), and Proofs/Ertm.v shows by a counterexample that this is necessary.
    The sink is a pure consumer (it does not write from inside on_sdu).
    Bytes are Z in [0,256); sequence numbers are Z. *)
 From Coq Require Import ZArith List Bool.
@@ -66,6 +74,10 @@ Inductive frame :=
 | IFrame (tx req : Z) (s : sar) (sdulen : Z) (data : list Z)
 | SFrame (func : Z) (poll final : bool) (req : Z).
 
+(* _monitor_handle: None / armed / fired for the last time (still truthy) *)
+Inductive mon := MonNone | MonArmed | MonDead.
+Definition mon_set (m : mon) : bool := match m with MonNone => false | _ => true end.
+
 Record ep := mkEp {
   e_pmps : Z;            (* peer_mps *)
   e_pwin : Z;            (* peer_tx_window_size *)
@@ -76,11 +88,24 @@ Record ep := mkEp {
   e_busy : bool;         (* _remote_is_busy *)
   e_req : Z;             (* _req_seq_num *)
   e_lackrx : Z;          (* _last_acked_rx_seq *)
-  e_insdu : list Z       (* _in_sdu *)
+  e_insdu : list Z;      (* _in_sdu *)
+  e_tm : bool * mon * Z * Z
+    (* timers: (retransmission timer armed, _monitor_handle,
+                _num_receiver_ready_polls_sent, peer_max_retransmission) *)
 }.
+Definition tm_rrarm (t : bool * mon * Z * Z) : bool := let '(a, _, _, _) := t in a.
+Definition tm_mon (t : bool * mon * Z * Z) : mon := let '(_, m, _, _) := t in m.
+Definition tm_polls (t : bool * mon * Z * Z) : Z := let '(_, _, n, _) := t in n.
+Definition tm_maxretx (t : bool * mon * Z * Z) : Z := let '(_, _, _, x) := t in x.
+Definition e_rrarm (e : ep) : bool := tm_rrarm (e_tm e).
+Definition e_mon (e : ep) : mon := tm_mon (e_tm e).
+Definition e_polls (e : ep) : Z := tm_polls (e_tm e).
+Definition e_pmaxretx (e : ep) : Z := tm_maxretx (e_tm e).
+
+Definition DEFAULT_MAX_RETRANSMISSION : Z := 1.
 
 Definition ep_init (peer_mps peer_win : Z) : ep :=
-  mkEp peer_mps peer_win 0 0 [] [] false 0 0 [].
+  mkEp peer_mps peer_win 0 0 [] [] false 0 0 [] (false, MonNone, 0, DEFAULT_MAX_RETRANSMISSION).
 
 (* ---- send_sdu: segmentation.  The loop "for offset in range(0, len(sdu), mps)" is
    written over the not-yet-consumed suffix rest = sdu[offset:]: offset == 0 is [first],
@@ -120,26 +145,35 @@ Definition iframe_of (req : Z) (p : pdu) : frame :=
          (match g_sar s with START => g_len s | _ => 0 end) (g_data s).
 
 Definition process_output (e : ep) : ep * list frame :=
-  if e_busy e then (e, [])
+  if e_busy e || mon_set (e_mon e) then (e, [])
   else
     let k := Z.to_nat (e_pwin e - Z.of_nat (length (e_txw e))) in
     let now := firstn k (e_pend e) in
     (mkEp (e_pmps e) (e_pwin e) (e_next e) (e_lack e) (skipn k (e_pend e))
           (e_txw e ++ now) (e_busy e) (e_req e)
-          (match now with [] => e_lackrx e | _ :: _ => e_req e end) (e_insdu e),
+          (match now with [] => e_lackrx e | _ :: _ => e_req e end) (e_insdu e)
+          (* _send_i_frame: _start_receiver_ready_poll() *)
+          (match now with
+           | [] => e_tm e
+           | _ :: _ => (true, e_mon e, 0, e_pmaxretx e)
+           end),
      map (iframe_of (e_req e)) now).
 
 Definition send_sdu (e : ep) (sdu : list Z) : ep * list frame :=
   let '(ps, n) := assign (e_next e) (segment (e_pmps e) sdu) in
   process_output (mkEp (e_pmps e) (e_pwin e) n (e_lack e) (e_pend e ++ ps)
-                       (e_txw e) (e_busy e) (e_req e) (e_lackrx e) (e_insdu e)).
+                       (e_txw e) (e_busy e) (e_req e) (e_lackrx e) (e_insdu e) (e_tm e)).
 
-Definition update_ack (e : ep) (new_seq : Z) : ep * list frame :=
+(* _update_ack_seq(new_seq, is_poll_response) *)
+Definition update_ack (e : ep) (new_seq : Z) (final : bool) : ep * list frame :=
   let n := (new_seq - e_lack e) mod MAX_SEQ_NUM in
   if Z.of_nat (length (e_txw e)) <? n then (e, [])
-  else process_output (mkEp (e_pmps e) (e_pwin e) (e_next e) new_seq (e_pend e)
-                            (skipn (Z.to_nat n) (e_txw e)) (e_busy e) (e_req e)
-                            (e_lackrx e) (e_insdu e)).
+  else
+    let m := if final && mon_set (e_mon e) then MonNone else e_mon e in
+    let arm := if new_seq =? e_next e then false else e_rrarm e in
+    process_output (mkEp (e_pmps e) (e_pwin e) (e_next e) new_seq (e_pend e)
+                         (skipn (Z.to_nat n) (e_txw e)) (e_busy e) (e_req e)
+                         (e_lackrx e) (e_insdu e) (arm, m, e_polls e, e_pmaxretx e)).
 
 Definition delivers (s : sar) : bool :=
   match s with SEND | UNSEG => true | _ => false end.
@@ -147,30 +181,56 @@ Definition delivers (s : sar) : bool :=
 (* _send_s_frame(RR, final) *)
 Definition send_rr (e : ep) (final : bool) : ep * list frame :=
   (mkEp (e_pmps e) (e_pwin e) (e_next e) (e_lack e) (e_pend e) (e_txw e) (e_busy e)
-        (e_req e) (e_req e) (e_insdu e),
+        (e_req e) (e_req e) (e_insdu e) (e_tm e),
    [SFrame RR false final (e_req e)]).
 
 (* on_pdu: new state, frames sent (in order), SDUs handed to the sink *)
 Definition on_frame (e : ep) (f : frame) : ep * list frame * list (list Z) :=
   match f with
   | IFrame tx req s _ data =>
-      let '(e1, out1) := update_ack e req in
+      (* an I-frame always carries final = 1 *)
+      let '(e1, out1) := update_ack e req true in
       if negb (tx =? e_req e1) then (e1, out1, [])
       else
         let acc := e_insdu e1 ++ data in
         let e2 := mkEp (e_pmps e1) (e_pwin e1) (e_next e1) (e_lack e1) (e_pend e1)
                        (e_txw e1) (e_busy e1) ((tx + 1) mod MAX_SEQ_NUM) (e_lackrx e1)
-                       (if delivers s then [] else acc) in
+                       (if delivers s then [] else acc) (e_tm e1) in
         let sdus := if delivers s then [acc] else [] in
         if e_req e2 =? e_lackrx e2 then (e2, out1, sdus)
         else let '(e3, out3) := send_rr e2 false in (e3, out1 ++ out3, sdus)
   | SFrame func poll final req =>
-      let '(e1, out1) := update_ack e req in
+      let '(e1, out1) := update_ack e req final in
       let e2 := mkEp (e_pmps e1) (e_pwin e1) (e_next e1) (e_lack e1) (e_pend e1)
-                     (e_txw e1) (func =? RNR) (e_req e1) (e_lackrx e1) (e_insdu e1) in
+                     (e_txw e1) (func =? RNR) (e_req e1) (e_lackrx e1) (e_insdu e1)
+                     (e_tm e1) in
       if ((func =? RR) || (func =? RNR)) && poll
       then let '(e3, out3) := send_rr e2 true in (e3, out1 ++ out3, [])
       else (e2, out1, [])
+  end.
+
+(* ---- timer events.  _receiver_ready_poll: the retransmission timer fires *)
+Definition retx_timeout (e : ep) : ep * list frame :=
+  if e_rrarm e then
+    (* _send_receiver_ready_poll (counter + 1, RR final=1), _start_monitor *)
+    send_rr (mkEp (e_pmps e) (e_pwin e) (e_next e) (e_lack e) (e_pend e) (e_txw e) (e_busy e)
+                  (e_req e) (e_lackrx e) (e_insdu e)
+                  (false, MonArmed, e_polls e + 1, e_pmaxretx e)) true
+  else (e, []).
+
+(* _monitor: the monitor timer fires *)
+Definition mon_timeout (e : ep) : ep * list frame :=
+  match e_mon e with
+  | MonArmed =>
+      if (e_pmaxretx e <=? 0) || (e_polls e <? e_pmaxretx e) then
+        send_rr (mkEp (e_pmps e) (e_pwin e) (e_next e) (e_lack e) (e_pend e) (e_txw e) (e_busy e)
+                      (e_req e) (e_lackrx e) (e_insdu e)
+                      (e_rrarm e, MonArmed, e_polls e + 1, e_pmaxretx e)) true
+      else
+        (* "Max retransmission exceeded": nothing sent, the handle stays set *)
+        (mkEp (e_pmps e) (e_pwin e) (e_next e) (e_lack e) (e_pend e) (e_txw e) (e_busy e)
+              (e_req e) (e_lackrx e) (e_insdu e) (e_rrarm e, MonDead, e_polls e, e_pmaxretx e), [])
+  | _ => (e, [])
   end.
 
 (* ---- two ERTM endpoints joined by two FIFO channels.  The logs record every frame
@@ -186,7 +246,14 @@ Inductive label :=
 | WriteA (sdu : list Z)
 | WriteB (sdu : list Z)
 | DeliverAB
-| DeliverBA.
+| DeliverBA
+| TimeoutRetxA | TimeoutRetxB      (* retransmission timer of A / B fires *)
+| TimeoutMonA | TimeoutMonB.       (* monitor timer of A / B fires *)
+
+Definition is_timer (l : label) : bool :=
+  match l with TimeoutRetxA | TimeoutRetxB | TimeoutMonA | TimeoutMonB => true | _ => false end.
+(* the assumption of the C08 theorems: no timer fires *)
+Definition no_timer (sched : list label) : bool := forallb (fun l => negb (is_timer l)) sched.
 
 (* A segments by B's MPS and is limited by B's window, and vice versa *)
 Definition sys_init (mps_a win_a mps_b win_b : Z) : sys :=
@@ -218,6 +285,14 @@ Definition step (s : sys) (l : label) : sys :=
           mkSys a (s_b s) (s_ab s ++ out) rest (s_sink_a s ++ sdus) (s_sink_b s)
                 (s_log_ab s ++ out) (s_log_ba s)
       end
+  | TimeoutRetxA | TimeoutMonA =>
+      let '(a, out) := match l with TimeoutRetxA => retx_timeout (s_a s) | _ => mon_timeout (s_a s) end in
+      mkSys a (s_b s) (s_ab s ++ out) (s_ba s) (s_sink_a s) (s_sink_b s)
+            (s_log_ab s ++ out) (s_log_ba s)
+  | TimeoutRetxB | TimeoutMonB =>
+      let '(b, out) := match l with TimeoutRetxB => retx_timeout (s_b s) | _ => mon_timeout (s_b s) end in
+      mkSys (s_a s) b (s_ab s) (s_ba s ++ out) (s_sink_a s) (s_sink_b s)
+            (s_log_ab s) (s_log_ba s ++ out)
   end.
 
 Definition run (s : sys) (sched : list label) : sys := fold_left step sched s.
